@@ -50,7 +50,7 @@ def body(ck, tier, runner):
     probes(ck, runner)
     rng = Rng(ck.seed * 5003 + 7)
     sd = SemDiff(ck, runner, "aggregates")
-    ncase = 90 if tier == "quick" else 4000
+    ncase = 300 if tier == "quick" else 4000
     for d in range(ncase):
         n = rng.pick([0, 1, 5, 40, 200, 1200, 2500])
         groups = rng.pick([1, 3, 40, 700, 2000])
